@@ -175,3 +175,44 @@ def replay_delta(values, outdir):
 
 
 STREAM_REPLAYS = {'delta': replay_delta}
+
+
+def _int(v):
+    s = str(v).strip()
+    for suf in ('ull', 'ul', 'll', 'u', 'l', 'ULL', 'UL', 'LL', 'U', 'L'):
+        if s.endswith(suf):
+            s = s[:-len(suf)]
+            break
+    try:
+        return int(s, 0)
+    except ValueError:
+        return 0
+
+
+def replay_cdf(values, outdir):
+    """work(): counterexample = the bytes the sniffing read delivered.  Feed them (plus a tail when all four
+    were read) to the real binary with -cdf: input that does not begin with BZh1-9 must come out unchanged."""
+    hdr = _int(values.get('g_work_hdr', 0)) & 0xFFFFFFFF
+    vac = _int(values.get('g_work_vacant', 0))
+    if vac > 4:
+        return {'note': 'no sniffing read in the counterexample'}, 'no-input'
+    data = hdr.to_bytes(4, 'little')[:4 - vac]
+    if vac == 0:
+        data += b'tail-bytes-after-the-header\n'
+    is_hdr = vac == 0 and data[:3] == b'BZh' and 0x31 <= data[3] <= 0x39
+    with tempfile.TemporaryDirectory() as td:
+        exe, err = build_lbzip2(td)
+        if exe is None:
+            return {'error': 'build failed: ' + err[-500:]}, 'build-failed'
+        p = subprocess.run([exe, '-c', '-d', '-f', '-n', '2'], input=data, stdout=subprocess.PIPE, stderr=subprocess.PIPE, timeout=60)
+    open(os.path.join(outdir, 'replay.input'), 'wb').write(data)
+    r = {'input_hex': data.hex(), 'begins_with_BZh1_9': is_hdr, 'lbzip2_exit': p.returncode, 'stdout_hex': p.stdout[:64].hex(),
+         'stderr': p.stderr.decode('utf-8', 'replace')[:200]}
+    if not is_hdr and (p.returncode != 0 or p.stdout != data):
+        return r, 'reproduced'
+    if is_hdr and p.returncode == 0 and p.stdout == data:
+        return r, 'reproduced'
+    return r, 'not-reproduced'
+
+
+STREAM_REPLAYS['cdf'] = replay_cdf
